@@ -386,6 +386,9 @@ add("ProbabilisticAL_prior", P.ProbabilisticAL,
     lambda c: dict(clf=_ctx_clf(c)), arbitrary_index_ok=True, independent=True, perm=True, model_arg="clf")
 add("BatchBALD_nMC", P.BatchBALD, lambda s, ml=NAN: P.BatchBALD(n_MC_samples=4, eps=1e-3, missing_label=ml, random_state=s),
     lambda c: dict(ensemble=ens_list(c["classes"], c.get("ml", NAN))), arbitrary_index_ok=True, model_arg="ensemble", nmax=16)
+# fewer Monte-Carlo samples than ensemble members
+add("BatchBALD_nMC1", P.BatchBALD, lambda s, ml=NAN: P.BatchBALD(n_MC_samples=1 + s % 2, missing_label=ml, random_state=s),
+    lambda c: dict(ensemble=ens_list(c["classes"], c.get("ml", NAN))), arbitrary_index_ok=True, model_arg="ensemble", nmax=16)
 add("Clue_margin", P.Clue, lambda s, ml=NAN: P.Clue(method="margin_sampling", missing_label=ml, random_state=s),
     lambda c: dict(clf=_ctx_clf(c, "tree")), model_arg="clf", lazy=True, feat=False)
 add("FourDs_lmbda", P.FourDs, lambda s, ml=NAN: P.FourDs(lmbda=0.3, missing_label=ml, random_state=s),
